@@ -462,6 +462,28 @@ func ruleClientCache(c *Ctx) {
 			}
 		}
 	}
+	// and the error that comes with a stored value is examined at all: a store
+	// `c.client, err = ctor(...)` whose err reaches the return untested hands
+	// the failure to the caller but keeps the typed nil
+	for _, st := range stores {
+		as, ok := st.Ast.(*ast.AssignStmt)
+		if !ok || len(as.Lhs) != 2 || len(as.Rhs) != 1 {
+			continue
+		}
+		if _, isCall := ast.Unparen(as.Rhs[0]).(*ast.CallExpr); !isCall || !isErrorType(cinfo.TypeOf(as.Lhs[1])) {
+			continue
+		}
+		errV := identObj(cinfo, as.Lhs[1])
+		tested := func(e *Edge) bool {
+			at, isAt := edgeAtom(cinfo, e)
+			return isAt && at.Kind == "nil" && identObj(cinfo, at.X) == errV && errV != nil
+		}
+		seen := cg.ReachAfter(st, isClear, tested)
+		if _, leak := seen[cg.Exit]; leak {
+			bad = true
+			c.R.Violate("R-ONCE", p.Pos(st.Ast), cf.Name, "failed connect clears the cache", "the error that comes with the stored protocol client reaches a return without having been tested: a failed construction is reported to the caller while its typed-nil result stays cached in Client.client, and the next Client() call returns it as a working client", p.PathTo(seen, cg.Exit))
+		}
+	}
 	if !bad {
 		c.R.Hold("R-ONCE", p.Pos(cf.Node()), cf.Name, "failed connect clears the cache", "every error exit after a store passes Client.client = nil", true)
 	}
